@@ -214,6 +214,12 @@ def generate(seed, mode):
                             'key': 0 if o.random() < 0.6 else o.randrange(64), 'k': k})
                 ops.append({'op': 'probe', 'k': k})
                 continue
+            if shape in ('chain', 'dynamic') and o.random() < 0.03:
+                # fault `address-reuse`: a registry that others are based on is discarded and collected, a new registry takes its
+                # place (and, if the allocator plays along, its address), and then goes through as many changes as the old one had
+                ops.append({'op': 'replacereg', 'r': o.randrange(nR), 'v': o.randrange(len(vals)), 'key': 0 if o.random() < 0.6 else o.randrange(64), 'k': k})
+                ops.append({'op': 'probe', 'k': k})
+                continue
             if shape in ('chain', 'dynamic', 'subs') and o.random() < 0.03:
                 ops.append({'op': 'regen', 'r': o.randrange(nR), 'v': o.randrange(len(vals)), 'key': 0 if o.random() < 0.6 else o.randrange(64), 'k': k})
                 ops.append({'op': 'probe', 'k': k})
@@ -1781,6 +1787,73 @@ def execute(program, ctx, mode):
                 ctx.log(step, 'odecl', op['o'] % nobs, op['xs'], bool(op.get('also')))
                 opk = None
                 mutated = False
+            elif name == 'replacereg':
+                withsub = [x for x in range(nR) if alive[x] and any(x in rb[y] for y in range(nR) if alive[y])]
+                if not withsub:
+                    continue
+                r = withsub[op['r'] % len(withsub)]
+                children = [x for x in range(nR) if alive[x] and r in rb[x]]
+                g_old = regs[r]._generation
+                old_rb = {x: list(rb[x]) for x in children}
+                own_bases = list(rb[r])
+                for x in children:
+                    nb = [b for b in rb[x] if b != r]
+                    mutate(('bases', x, nb))
+                    rb[x] = nb
+                addr = id(regs[r])
+                cls = type(regs[r])
+                regs[r] = None
+                mutlog[:] = [m for m in mutlog if m[1] != r]
+                for kk in [kk for kk in live if kk[0] == r]:
+                    del live[kk]
+                subs[:] = [t for t in subs if t[0] != r]
+                rb[r] = []
+                gc.collect()
+                ctx.fault('drop-registry')
+                ctx.fault('gc')
+                misses = []
+                new = None
+                for _ in range(64):
+                    cand = cls.__new__(cls)
+                    if id(cand) == addr:
+                        new = cand
+                        break
+                    misses.append(cand)
+                if new is None:
+                    new = cls.__new__(cls)
+                else:
+                    ctx.fault('address-reuse')
+                new.__init__()
+                del misses
+                regs[r] = new
+                if own_bases:
+                    mutate(('bases', r, own_bases))
+                    rb[r] = own_bases
+                for x in children:
+                    mutate(('bases', x, old_rb[x]))
+                    rb[x] = old_rb[x]
+                ctx.log(step, 'replacereg', r, children, g_old)
+                probe(k)
+                va, vb = vals[op['v'] % len(vals)], vals[(op['v'] + 1) % len(vals)]
+                fk = W['keypool'][op['key'] % len(W['keypool'])]
+                rq = tuple(norm([SP[x % len(SP)] if LK[x % len(LK)] not in SP else LK[x % len(LK)] for x in fk['req']]))
+                pp = fk['p'] % (nP + 1)
+                pp = pp if pp < nP else 0
+                nm = NAMES[fk['n'] % 3]
+                n_ = 0
+                while regs[r]._generation < g_old and n_ < 12:
+                    v = va if live.get((r, rq, pp, nm)) is not va else vb
+                    mutate(('reg', r, real_req(rq), PP(pp), nm, v))
+                    live[(r, rq, pp, nm)] = v
+                    n_ += 1
+                    # (the answer seen from below has to follow every one of them: whatever recognises "a change I have
+                    # already dealt with" must not mistake the new registry for the one that used to live here)
+                    probe(k + n_)
+                if n_ and regs[r]._generation == g_old:
+                    ctx.probe('replacement-registry-reached-the-change-count-of-the-old-one')
+                last_mut[0] = 'register' if n_ else 'registry-bases'
+                ctx.log(step, 'replaced', r, n_)
+                opk = None
             elif name == 'dropreg':
                 r = op['r'] % nR
                 if not alive[r] or sum(alive) <= 1 or any(r in rb[x] for x in range(nR) if alive[x]):
